@@ -23,6 +23,7 @@ type SpecEnv struct {
 	topOld Term      // allocation watermark for fresh()
 	isOld  bool
 	ghosts map[string]string // ghost function name -> SMT function symbol of this application
+	recovered *Term          // value of recovered() (the in-flight panic value seen by a deferred function)
 }
 
 func (env *SpecEnv) with(name string, v Val) *SpecEnv {
@@ -633,6 +634,15 @@ func (ex *Exec) specCall(x ECall, env *SpecEnv) Val {
 			ex.specFail("%v", err)
 		}
 		return Scalar{Eq(IfDyn(ex.scalar(argv(0))), ex.vc.typeID(t)), boolT}
+	case "recovered":
+		need(0)
+		if env.recovered != nil {
+			return Scalar{*env.recovered, types.NewInterfaceType(nil, nil)}
+		}
+		if ex.topRecovered != nil {
+			return Scalar{*ex.topRecovered, types.NewInterfaceType(nil, nil)}
+		}
+		return Scalar{NilIface, types.NewInterfaceType(nil, nil)}
 	case "funcis": // the function value is (statically) the named function
 		need(2)
 		fv, ok := argv(0).(FuncV)
@@ -758,7 +768,7 @@ func (ex *Exec) specCall(x ECall, env *SpecEnv) Val {
 		ex.specFail("specification function %s recurses too deeply (recursive specs must be uninterpreted)", sf.Name)
 	}
 	defer func() { ex.specDepth-- }()
-	inner := &SpecEnv{vars: map[string]Val{}, st: env.st, lst: env.lst, pkg: ctx, topOld: env.topOld, isOld: env.isOld, ghosts: env.ghosts}
+	inner := &SpecEnv{vars: map[string]Val{}, st: env.st, lst: env.lst, pkg: ctx, topOld: env.topOld, isOld: env.isOld, ghosts: env.ghosts, recovered: env.recovered}
 	if env.old != nil {
 		o := *env.old
 		o.vars = map[string]Val{}
